@@ -212,3 +212,18 @@ Qed.
    the hash.  grouped = that promise; the sorted permutation is one instance. *)
 Definition grouped (ks : list (list Z)) : Prop :=
   forall i j m, i < j -> j < m -> m < length ks -> nth i ks [] = nth m ks [] -> nth j ks [] = nth i ks [].
+
+(* named forms of the exported statements (Properties_C07.v proofs are `exact <lemma>.`) *)
+Lemma sort_is_sorted_permutation n ks :
+  Forall (fun x => length x = n) ks -> Permutation (sort_keys ks) ks /\ ksorted (sort_keys ks).
+Proof. intros H. split; [apply sort_keys_perm|apply (sort_keys_sorted n ks H)]. Qed.
+
+Lemma bounds_are_equal_range n ks k :
+  Forall (fun x => length x = n) ks -> length k = n -> ksorted ks ->
+  ub_bisect (S (length ks)) (lower_pred k) [] ks 0 (length ks) = lower_bound_count ks k /\
+  ub_bisect (S (length ks)) (upper_pred k) [] ks 0 (length ks) = upper_bound_count ks k /\
+  upper_bound_count ks k = lower_bound_count ks k + length (filter (fun x => zlist_eqb x k) ks).
+Proof.
+  intros HL Lk Hs. split; [apply (lower_bound_is_count n ks k HL Lk Hs)|]. split; [apply (upper_bound_is_count n ks k HL Lk Hs)|].
+  apply (proj2 (bounds_delimit_equal_keys n ks k HL Lk)).
+Qed.
